@@ -878,6 +878,8 @@ fn gen_c13(rng: &mut Rng, ctx: &mut Ctx, rep: &mut Report, emit: Emit) {
         let (a, b, c) = (digits(rng), digits(rng), digits(rng));
         let svc = *rng.pick(&["a", "a-1", "x-2-3", "svc", "7", "a-", "", "svc/", "~g/"]);
         let b1 = match i % 4 {
+            // the anonymous source: an ordinary source as far as IDs are concerned
+            _ if i % 11 == 7 => mk("dtn:none", a, b, rng.chance(1, 2), c),
             0 => mk(&format!("dtn://n/{}-{}", svc, a), b, c, false, 0),
             1 => mk(&format!("dtn://n/{}", svc), a, b, true, c),
             2 => mk(&format!("ipn:{}.{}", a.max(1), b), c, a, rng.chance(1, 2), b),
